@@ -43,7 +43,7 @@ type GenOpts struct {
 	WildLits    bool // literal texts with escapes / non-ASCII (for grammars that are printed, not parsed)
 	Embeds      bool // Go-source rendering: put leading fields into an embedded named struct
 	DeepEmbeds  bool // StructOf rendering: leading fields in a struct embedded by value 1-4 levels deep
-	BadElide    bool // one grammar in twenty-five gets a further Elide() option naming a token type the lexer does not define
+	BadElide    bool // one grammar in twenty-five gets a further Elide() option naming a token type the lexer does not define (or EOF, which it does)
 	Statics     bool // one grammar in twenty is a hand-written one whose production contains itself directly (static.go)
 	Parseables  bool // user-implemented productions (participle.Parseable)
 }
@@ -965,7 +965,7 @@ func GenGrammar(t *rapid.T, o GenOpts) *Grammar {
 	es := g.Prof().ElideSets
 	g.Elide = es[rapid.IntRange(0, len(es)-1).Draw(t, "elideset")]
 	if o.BadElide && rapid.IntRange(0, 24).Draw(t, "badelide") == 0 {
-		g.ExtraElide = []string{rapid.SampledFrom([]string{"Whitespace", "Nope", "EOL", "comment"}).Draw(t, "badelidename")}
+		g.ExtraElide = []string{rapid.SampledFrom([]string{"Whitespace", "Nope", "EOF", "EOL", "comment"}).Draw(t, "badelidename")}
 	}
 	nu := rapid.IntRange(1, 4).Draw(t, "nunions")
 	c := &genCtx{t: t, g: g, o: o, nu: nu}
@@ -1028,6 +1028,11 @@ func GenGrammar(t *rapid.T, o GenOpts) *Grammar {
 			})
 		}
 	}
+	if rapid.IntRange(0, 11).Draw(t, "eofterminator") == 0 {
+		// the root ends with a terminator that may be the end of the input itself: ... ( ";" | EOF )
+		p0 := g.Prods[0]
+		p0.Expr = Seq(p0.Expr, Alt(Lit(";"), Ref("EOF")))
+	}
 	for i, p := range g.Prods {
 		assignFields(t, p, p.Expr, i)
 		if o.Embeds && len(p.Fields) > 0 && rapid.IntRange(0, 2).Draw(t, "embed") == 0 {
@@ -1070,6 +1075,9 @@ func Sample(t *rapid.T, g *Grammar, e *Expr, out *[]VTok, fuel *int) {
 		*out = append(*out, VTok{Type: ty, Value: s})
 	case KRef:
 		c := g.Prof().vocabOf(e.T)
+		if e.T == "EOF" {
+			return // the end of the input: nothing to write
+		}
 		if len(c) == 0 {
 			if e.T == "Comment" {
 				*out = append(*out, VTok{Type: "Comment", Value: "#c#"})
